@@ -193,7 +193,7 @@ def rule_order(program, ctx):
         "SQL: the template that appends LIMIT also contains `ORDER BY created_at DESC` before it (or an ORDER BY append dominates the LIMIT "
         "append); LMDB: a scanner must not pass the index hits through a set/dict before they are counted (newest-first order is what makes "
         "the survivors of the cut-off the newest)",
-        floor=2,
+        floor=1,
     )
     bq = program.func("nostr_relay.storage.db:Subscription.build_query")
     cfg = cfg_of(bq)
@@ -240,7 +240,7 @@ def rule_cutoff(program, ctx):
         "C12.cutoff",
         "kv.execute_one_plan: `on_event(event)` is reachable only through the false edge of `count == limit` (or >=) with limit = plan.limit; "
         "count += 1 follows each append",
-        floor=2,
+        floor=1,
     )
     fn = program.func("nostr_relay.storage.kv:execute_one_plan")
     cfg = cfg_of(fn)
